@@ -77,6 +77,8 @@ class Google:
             if a == "F5":
                 text = [f"{desc} plain", f"d{i}", f"d{i} (see below) - really"][v % 3]
                 return {"text": pad + text, "name": None, "type": None, "desc": text, "pre": None}
+            if a == "BL":
+                return {"text": f"{pad}<BLANKLINE>", "name": None, "type": None, "desc": "<BLANKLINE>", "pre": None}
             if a == "F6":
                 sig = ["a=1", "b", "*args"][v % 3]
                 return {"text": f"{pad}{name}({sig}): {desc}", "name": name, "type": sig, "desc": desc, "pre": f"{name}({sig})"}
@@ -111,7 +113,9 @@ class Google:
         body = line[ind:]
         if body.startswith(">>>"):
             return {"k": "prompt", "ind": ind, "a": "flags" if ":" in body else "-", "t": False}
-        if ":" not in body:
+        if body == "<BLANKLINE>":
+            form = "BL"
+        elif ":" not in body:
             form = "F5"
         else:
             pre = body.split(":", 1)[0]
@@ -165,9 +169,9 @@ class Google:
             return f"parser gives {[s.kind.value for s in secs]}"
         el = secs[1].value[0]
         a = ln["a"]
-        want_name = {"F1": p.get("name"), "F2": p.get("name"), "F3": "", "F4": "", "F5": "", "F6": p.get("name")}[a]
+        want_name = {"F1": p.get("name"), "F2": p.get("name"), "F3": "", "F4": "", "F5": "", "BL": "", "F6": p.get("name")}[a]
         typed = a in ("F2", "F3", "F6")
-        desc = p["desc"] if a != "F5" else text.strip()
+        desc = p["desc"] if a not in ("F5", "BL") else text.strip()
         if el.name != want_name or (typed != (el.annotation is not None and p.get("type") is not None and p["type"] in str(el.annotation).replace(", ", ","))) or el.description != desc:
             return f"parser gives name={el.name!r} annotation={el.annotation!r} description={el.description!r}"
         return None
@@ -180,7 +184,7 @@ class Google:
         out = [rec("blank", 0, "e"), rec("blank", 0, "w"), rec("text", 0, "plain"), rec("text", 0, "colon"), rec("adm", 0, "-"), rec("adm", 0, "-", True),
                rec("fence", 0, "-"), rec("fence", 4, "-"), rec("prompt", 4, "-"), rec("prompt", 4, "flags")]
         out += [rec("sec", 0, k, t) for k in sorted(self.keywords) for t in (False, True)]
-        out += [rec("item", 4, f) for f in ("F1", "F2", "F3", "F4", "F5", "F6")]
+        out += [rec("item", 4, f) for f in ("F1", "F2", "F3", "F4", "F5", "F6", "BL")]
         out += [rec("item", 6, "F1"), rec("item", 6, "F5"), rec("item", 8, "F1"), rec("item", 8, "F4"), rec("item", 8, "F5")]
         return out
 
